@@ -307,24 +307,37 @@ class Interp:
         if m is not None:
             return self.native(lambda *a, **k: m(self, *a, **k), args, kwargs)
         mod = (getattr(cls, '__module__', '') or '').split('.')[0]
-        if mod in INTERPRETED_PREFIXES and not issubclass(cls, __import__('enum').Enum):
-            init = None
-            for k in cls.__mro__:
-                if '__init__' in k.__dict__:
-                    init = k.__dict__['__init__']
-                    break
-                if '__new__' in k.__dict__ and k is not object:
-                    init = None
-                    break
-            if isinstance(init, types.FunctionType) and func_info(init) is not None \
-                    and (init.__module__ or '').split('.')[0] in INTERPRETED_PREFIXES:
-                try:
-                    obj = cls.__new__(cls)
-                except TypeError:
-                    obj = cls.__new__(cls, *args, **kwargs)
+        import enum
+        if mod not in INTERPRETED_PREFIXES or issubclass(cls, enum.Enum):
+            return self.native(cls, args, kwargs)
+
+        def in_repo(f):
+            return isinstance(f, types.FunctionType) and (f.__module__ or '').split('.')[0] in INTERPRETED_PREFIXES \
+                and func_info(f) is not None
+
+        new = init = None
+        for k in cls.__mro__:
+            if new is None and '__new__' in k.__dict__:
+                new = k.__dict__['__new__']
+            if init is None and '__init__' in k.__dict__:
+                init = k.__dict__['__init__']
+        if isinstance(new, staticmethod):
+            new = new.__func__
+        if not in_repo(new) and not in_repo(init):
+            return self.native(cls, args, kwargs)
+        # type.__call__: __new__, then __init__ if an instance of cls came back
+        if in_repo(new):
+            obj = self.call_value(new, [cls] + args, kwargs)
+        elif new is object.__new__ or new is None:
+            obj = self.native(object.__new__, [cls], {})
+        else:
+            obj = self.native(new, [cls] + args, kwargs)
+        if isinstance(obj, cls):
+            if in_repo(init):
                 self.call_value(init, [obj] + args, kwargs)
-                return obj
-        return self.native(cls, args, kwargs)
+            elif init is not None and init is not object.__init__:
+                self.native(init, [obj] + args, kwargs)
+        return obj
 
     def bind_args(self, a, args, kwargs, defaults, kw_defaults, name):
         """bind per ast.arguments; defaults/kw_defaults are already evaluated values"""
@@ -861,7 +874,7 @@ class Interp:
         # 2. fork: arbitrary iteration (inductive step) or exit
         step = p.branch(p.bool(f'{qn}#loop{ordn}#step', register=False))
         # 3. havoc modified variables
-        modified = _assigned_names(s)
+        modified = _assigned_names(s) | set(spec.havoc)
         for name in sorted(modified):
             if name not in frame.locals and name not in spec.havoc:
                 continue
